@@ -6,6 +6,8 @@ import Garnish.Spec.WFProg
 namespace Garnish.Props.C05
 open Garnish Garnish.Gen Garnish.Model.Parser Garnish.Model.Literals Garnish.Model.Build Garnish.Lemmas.Build Garnish.Spec
 
+set_option linter.unusedSimpArgs false
+
 variable {F : Type}
 
 /-! ### monotonicity of the per-element checks -/
@@ -24,6 +26,7 @@ theorem instrOk_mono {jb jb' : Nat} {C C' : Array (Val F)} (hj : jb ≤ jb') (hs
       rw [hck] at h
       exact h
   case jump.some j => simp only [decide_eq_true_eq] at h ⊢; omega
+  all_goals exact h
 
 theorem constOk_mono {jb jb' : Nat} (hj : jb ≤ jb') {v : Val F} (h : constOk jb v = true) : constOk jb' v = true := by
   unfold constOk at *
@@ -39,6 +42,7 @@ theorem instrOk_of_empty {G : Type} {jb : Nat} {i : Instr} (C : Array (Val F)) (
   case data.some k => simp at h
   case sym.some k => simp at h
   case jump.some j => exact h
+  all_goals exact h
 
 theorem allFrom_push {α : Type} {lo : Nat} {a : Array α} {P : α → Prop} (h : AllFrom lo a P) {x : α} (hx : P x) :
     AllFrom lo (a.push x) P := by
@@ -189,5 +193,213 @@ theorem getNode_wf {jb n : Nat} {nodes : Nodes} (h : NodesWF jb n nodes) (i : Na
   split
   · rename_i b hb; simp only [sat_ok]; exact h.2 i b hb
   · exact sat_buildErr
+
+
+/-! ### the invariant of the inner loop (one root being emitted; `rs` = instruction count when the root started) -/
+
+structure InvH (b : Base) (rs : Nat) (ctx : Ctx F) : Prop where
+  data : DataOk b ctx.data.instrs ctx.data.jumps ctx.data.consts ctx.data.metadata
+  jok : JOk b.j0 ctx.data.instrs.size (0 < ctx.rootStack.size ∨ ctx.data.instrs.size = rs) ctx.data.jumps
+  nodes : NodesWF ctx.data.jumps.size b.n ctx.nodes
+  rsLe : rs ≤ ctx.data.instrs.size
+
+macro "arith_tac" : tactic => `(tactic| (
+  first
+    | omega
+    | (simp only [Array.size_push]; omega)
+    | (intros; simp only [Array.size_push] at *; omega)))
+
+macro "side_tac" : tactic => `(tactic| (
+  first
+    | rfl
+    | assumption
+    | (simp only [metaOk, decide_eq_true_eq]; first | assumption | exact (‹BnWF _ _ _›).1)
+    | (simp only [instrOk, *]; done)
+    | (simp only [instrOk, *]; simp [Array.size_push]; done)
+    | (simp only [instrOk, opKind, decide_eq_true_eq]; exact (‹BnWF _ _ _›).2.1)
+    | (simp [instrOk, opKind, constOk, Array.size_push]; done)
+    | (simp [instrOk, opKind, constOk, Array.size_push, *]; done)
+    | arith_tac))
+
+macro "data_tac" : tactic => `(tactic| (
+  (repeat (first
+    | assumption
+    | (refine DataOk.pushI ?_ ?_ ?_)
+    | (refine DataOk.pushC ?_ ?_)
+    | (apply DataOk.pushJ))) <;> side_tac))
+
+macro "jok_tac" : tactic => `(tactic| (
+  (repeat (first
+    | (refine jOk_push ?_ ?_ ?_)
+    | (refine jOk_mono ‹JOk _ _ _ _› ?_ ?_))) <;> arith_tac))
+
+macro "wfbn_put" : tactic => `(tactic| (
+  first
+    | assumption
+    | (apply bnWF_congr (by assumption) <;> rfl)))
+
+macro "wfnodes_tac" : tactic => `(tactic| (
+  repeat (first
+    | assumption
+    | (apply nodesWF_putNode (hb := by wfbn_put)))))
+
+macro "wfbn_new" : tactic => `(tactic| (
+  intro hlt;
+  first
+    | exact bnWF_new hlt (‹BnWF _ _ _›).2.1
+    | exact bnWF_newWithList _ _ hlt (‹BnWF _ _ _›).2.1
+    | exact bnWF_newWithConditional _ hlt (‹BnWF _ _ _›).2.1))
+
+macro "wf_final" : tactic => `(tactic| (
+  refine InvH.mk ?_ ?_ ?_ ?_ <;> (try dsimp only) <;>
+    first | data_tac | jok_tac | wfnodes_tac | (refine nodesWF_mono ?_ (by assumption); arith_tac) | arith_tac))
+
+macro "wf_tac" b:term "," jb:term : tactic => `(tactic| (
+  repeat' (first
+    | (refine sat_bind (getNode_wf (jb := $jb) (n := Base.n $b) ?_ _) (fun _ _ => ?_); (· wfnodes_tac))
+    | (refine sat_bind (setNodeIdx_wf (jb := $jb) (n := Base.n $b) ?_ _ ?_ _) (fun _ _ => ?_); (· wfnodes_tac); (· wfbn_new))
+    | exact sat_buildErr
+    | exact sat_panic
+    | wf_final
+    | simp only [bind_ok, bind_assoc]
+    | split)))
+
+section handlersWF
+variable {b : Base} {rs : Nat} {ctx : Ctx F}
+
+theorem handleUnaryPrefix_wf (h : InvH b rs ctx) {ni : Nat} (hni : ni < b.n) {ins : Instruction} (hk : opKind ins = .free) (pn : ParseNode) :
+    Sat (InvH b rs) (handleUnaryPrefix ins ctx ni pn) := by
+  obtain ⟨hd, hj, hn, hr⟩ := h
+  unfold handleUnaryPrefix
+  try simp only [pushInstr, pushToJumpTable, addConst, parseAddSymbol, getJumpTableLen, getInstructionLen]
+  wf_tac b, ctx.data.jumps.size
+
+
+theorem handleUnarySuffix_wf (h : InvH b rs ctx) {ni : Nat} (hni : ni < b.n) {ins : Instruction} (hk : opKind ins = .free) (pn : ParseNode) :
+    Sat (InvH b rs) (handleUnarySuffix ins ctx ni pn) := by
+  obtain ⟨hd, hj, hn, hr⟩ := h
+  unfold handleUnarySuffix
+  try simp only [pushInstr, pushToJumpTable, addConst, parseAddSymbol, getJumpTableLen, getInstructionLen]
+  wf_tac b, ctx.data.jumps.size
+
+theorem handleBinaryOperationWithPush_wf (h : InvH b rs ctx) {ni : Nat} (hni : ni < b.n) {ins : Instruction} (hk : opKind ins = .free) (lr : Bool) (pn : ParseNode) :
+    Sat (InvH b rs) (handleBinaryOperationWithPush ins lr ctx ni pn) := by
+  obtain ⟨hd, hj, hn, hr⟩ := h
+  unfold handleBinaryOperationWithPush
+  try simp only [pushInstr, pushToJumpTable, addConst, parseAddSymbol, getJumpTableLen, getInstructionLen]
+  wf_tac b, ctx.data.jumps.size
+
+theorem handleList_wf (h : InvH b rs ctx) {ni : Nat} (hni : ni < b.n)  (pn : ParseNode) :
+    Sat (InvH b rs) (handleList  ctx ni pn) := by
+  obtain ⟨hd, hj, hn, hr⟩ := h
+  unfold handleList
+  try simp only [pushInstr, pushToJumpTable, addConst, parseAddSymbol, getJumpTableLen, getInstructionLen]
+  wf_tac b, ctx.data.jumps.size
+
+theorem handleGroup_wf (h : InvH b rs ctx) {ni : Nat} (hni : ni < b.n)  (pn : ParseNode) :
+    Sat (InvH b rs) (handleGroup  ctx ni pn) := by
+  obtain ⟨hd, hj, hn, hr⟩ := h
+  unfold handleGroup
+  try simp only [pushInstr, pushToJumpTable, addConst, parseAddSymbol, getJumpTableLen, getInstructionLen]
+  wf_tac b, ctx.data.jumps.size
+
+theorem handleSideEffect_wf (h : InvH b rs ctx) {ni : Nat} (hni : ni < b.n)  (pn : ParseNode) :
+    Sat (InvH b rs) (handleSideEffect  ctx ni pn) := by
+  obtain ⟨hd, hj, hn, hr⟩ := h
+  unfold handleSideEffect
+  try simp only [pushInstr, pushToJumpTable, addConst, parseAddSymbol, getJumpTableLen, getInstructionLen]
+  wf_tac b, ctx.data.jumps.size
+
+theorem handleReapply_wf (h : InvH b rs ctx) {ni : Nat} (hni : ni < b.n)  (pn : ParseNode) :
+    Sat (InvH b rs) (handleReapply  ctx ni pn) := by
+  obtain ⟨hd, hj, hn, hr⟩ := h
+  unfold handleReapply
+  try simp only [pushInstr, pushToJumpTable, addConst, parseAddSymbol, getJumpTableLen, getInstructionLen]
+  wf_tac b, ctx.data.jumps.size
+
+theorem handleSubexpression_wf (h : InvH b rs ctx) {ni : Nat} (hni : ni < b.n)  (pn : ParseNode) :
+    Sat (InvH b rs) (handleSubexpression  ctx ni pn) := by
+  obtain ⟨hd, hj, hn, hr⟩ := h
+  unfold handleSubexpression
+  try simp only [pushInstr, pushToJumpTable, addConst, parseAddSymbol, getJumpTableLen, getInstructionLen]
+  wf_tac b, ctx.data.jumps.size
+
+theorem handleInfixApply_wf (h : InvH b rs ctx) {ni : Nat} (hni : ni < b.n)  (pn : ParseNode) :
+    Sat (InvH b rs) (handleInfixApply  ctx ni pn) := by
+  obtain ⟨hd, hj, hn, hr⟩ := h
+  unfold handleInfixApply
+  try simp only [pushInstr, pushToJumpTable, addConst, parseAddSymbol, getJumpTableLen, getInstructionLen]
+  wf_tac b, ctx.data.jumps.size
+
+theorem handleUnaryFixApply_wf (h : InvH b rs ctx) {ni : Nat} (hni : ni < b.n) (child : Option Nat) (pn : ParseNode) :
+    Sat (InvH b rs) (handleUnaryFixApply child ctx ni pn) := by
+  obtain ⟨hd, hj, hn, hr⟩ := h
+  unfold handleUnaryFixApply
+  try simp only [pushInstr, pushToJumpTable, addConst, parseAddSymbol, getJumpTableLen, getInstructionLen]
+  wf_tac b, ctx.data.jumps.size
+
+
+theorem handleNestedExpression_wf (h : InvH b rs ctx) {ni : Nat} (hni : ni < b.n) {crj : Nat} (hcrj : crj < ctx.data.jumps.size)
+    (pn : ParseNode) : Sat (InvH b rs) (handleNestedExpression ctx crj ni pn) := by
+  obtain ⟨hd, hj, hn, hr⟩ := h
+  unfold handleNestedExpression
+  simp only [pushInstr, pushToJumpTable, addConst, getJumpTableLen]
+  split
+  · wf_final
+  · have hn' := nodesWF_mono (jb' := ctx.data.jumps.size + 1) (by omega) hn
+    refine sat_bind (setNodeIdx_wf hn' _ (fun hlt => bnWF_newWithJump _ hlt (by omega)) _) (fun nodes hnodes => ?_)
+    have hnodes' : NodesWF (ctx.data.jumps.push 0).size b.n nodes := by simpa using hnodes
+    wf_final
+
+theorem handleLogicalBinary_wf (h : InvH b rs ctx) {ni : Nat} (hni : ni < b.n) {ins : Instruction} (hk : opKind ins = .jump)
+    (pn : ParseNode) : Sat (InvH b rs) (handleLogicalBinary ins ctx ni pn) := by
+  obtain ⟨hd, hj, hn, hr⟩ := h
+  unfold handleLogicalBinary
+  simp only [pushInstr, pushToJumpTable, getJumpTableLen, getInstructionLen]
+  refine sat_bind (getNode_wf hn _) (fun node hnode => ?_)
+  split
+  · wf_tac b, ctx.data.jumps.size
+  · split
+    · exact sat_buildErr
+    · have hn' := nodesWF_mono (jb' := ctx.data.jumps.size + 2) (by omega) hn
+      have hc := hnode.2.1
+      refine sat_bind (setNodeIdx_wf hn' _ (fun hlt => bnWF_newWithJumpAndEnd _ hlt (by omega) (by simp) ?_) _)
+        (fun nodes hnodes => ?_)
+      · intro x hx
+        simp only [List.mem_cons, List.mem_nil_iff, or_false] at hx
+        rcases hx with hx | hx <;> subst hx <;> simp [instrOk, opKind, Array.size_push]
+      · have hnodes' : NodesWF ((ctx.data.jumps.push 0).push (ctx.data.instrs.push (ins, some ctx.data.jumps.size)).size).size b.n nodes := by
+          simpa using hnodes
+        wf_final
+
+theorem handleJumpIf_wf (h : InvH b rs ctx) {ni : Nat} (hni : ni < b.n) {ins : Instruction} (hk : opKind ins = .jump)
+    (pn : ParseNode) : Sat (InvH b rs) (handleJumpIf ins ctx ni pn) := by
+  obtain ⟨hd, hj, hn, hr⟩ := h
+  unfold handleJumpIf
+  simp only [pushInstr, pushToJumpTable, getJumpTableLen, getInstructionLen]
+  refine sat_bind (getNode_wf hn _) (fun node hnode => ?_)
+  split
+  · wf_tac b, ctx.data.jumps.size
+  · split
+    · exact sat_buildErr
+    · split
+      · split
+        · rename_i parent hparent
+          have hp : BnWF ctx.data.jumps.size b.n parent := hn.2 _ _ hparent
+          wf_final
+        · wf_final
+      · have hn' := nodesWF_mono (jb' := ctx.data.jumps.size + 2) (by omega) hn
+        have hc := hnode.2.1
+        refine sat_bind (setNodeIdx_wf hn' _ (fun hlt => bnWF_newWithJumpAndEnd _ hlt (by omega) (by simp) ?_) _)
+          (fun nodes hnodes => ?_)
+        · intro x hx
+          simp only [List.mem_cons, List.mem_nil_iff, or_false] at hx
+          subst hx; simp [instrOk, opKind, Array.size_push]
+        · have hnodes' : NodesWF ((ctx.data.jumps.push 0).push
+              ((ctx.data.instrs.push (ins, some ctx.data.jumps.size)).push (.putValue, none)).size).size b.n nodes := by
+            simpa using hnodes
+          wf_final
+
+end handlersWF
 
 end Garnish.Props.C05
